@@ -57,13 +57,14 @@ func main() {
 		var result string
 		if lines/numNodes == 0 {
 			var i uint64 = 1
-			for ; i < lines; i++ {
-				if i == lines-1 {
+			for ; i <= lines; i++ {
+				if i == lines {
 					result += fmt.Sprintf("%d-%d", i, i)
 				} else {
 					result += fmt.Sprintf("%d-%d ", i, i)
 				}
 			}
+			fmt.Print(result)
 		} else {
 			sizePerSlice := lines / numNodes
 			rest := lines % numNodes
